@@ -96,7 +96,7 @@ def run(prop, mod, C):
                 expect = line.split(":", 1)[1].strip()
         d = scratch_copy()
         try:
-            r = subprocess.run(["patch", "-p1", "-s", "--no-backup-if-mismatch", "-i", p], cwd=d,
+            r = subprocess.run(["patch", "-p1", "-s", "-F0", "--no-backup-if-mismatch", "-i", p], cwd=d,
                                stdout=subprocess.PIPE, stderr=subprocess.STDOUT, text=True)
             if r.returncode != 0:
                 return {"mutant": name, "status": "skipped: patch does not apply to the current tree"}, None
